@@ -1,23 +1,74 @@
-"""In-memory mutants for the sensitivity self-test: a module of /repo is re-executed from its source text with one
-textual replacement applied.  Nothing is written to disk; the original source is re-executed afterwards."""
+"""In-memory mutants for the sensitivity self-test.
+
+A module of /repo is compiled from its source text with one textual replacement applied and executed in a scratch
+namespace; the *code objects* of the resulting functions and methods are then swapped into the live function objects of
+the real module (and swapped back afterwards).  Swapping code in place keeps every reference, subclass relationship and
+`from x import f` binding intact, which re-executing the module in its own namespace would not.  Nothing is written to
+disk.  Functions wrapped by numba (`@njit`) are not supported (their dispatcher caches compiled code).
+"""
 import importlib
 import inspect
+import types
+
+
+def _functions_of(ns, modname):
+    """{qualified name: function object} for plain functions and methods defined in a namespace."""
+    out = {}
+    for name, obj in list(ns.items()):
+        if isinstance(obj, types.FunctionType) and obj.__module__ == modname:
+            out[name] = obj
+        elif isinstance(obj, type) and obj.__module__ == modname:
+            for attr, val in list(vars(obj).items()):
+                q = '%s.%s' % (name, attr)
+                if isinstance(val, types.FunctionType):
+                    out[q] = val
+                elif isinstance(val, (staticmethod, classmethod)):
+                    out[q] = val.__func__
+                elif isinstance(val, property):
+                    if val.fget is not None:
+                        out[q + '.fget'] = val.fget
+                    if val.fset is not None:
+                        out[q + '.fset'] = val.fset
+    return out
 
 
 class Mutant:
     def __init__(self, modname, old, new, label, count=1):
         self.modname, self.old, self.new, self.label, self.count = modname, old, new, label, count
+        self.saved = []
 
     def __enter__(self):
         self.module = importlib.import_module(self.modname)
-        self.source = inspect.getsource(self.module)
-        if self.source.count(self.old) != self.count:
-            raise ValueError('mutant %r: pattern occurs %d times, expected %d' % (self.label, self.source.count(self.old), self.count))
-        code = compile(self.source.replace(self.old, self.new), self.module.__file__, 'exec')
-        exec(code, self.module.__dict__)
+        source = inspect.getsource(self.module)
+        if source.count(self.old) != self.count:
+            raise ValueError('mutant %r: pattern occurs %d times, expected %d' % (self.label, source.count(self.old), self.count))
+        mutated = source.replace(self.old, self.new)
+        ns = dict(self.module.__dict__)
+        ns['__name__'] = self.modname
+        exec(compile(mutated, self.module.__file__, 'exec'), ns)
+        live = _functions_of(self.module.__dict__, self.modname)
+        fresh = _functions_of(ns, self.modname)
+        changed = 0
+        for q, f_new in fresh.items():
+            f_old = live.get(q)
+            if f_old is None or f_old.__code__ == f_new.__code__:
+                continue
+            if len(f_old.__code__.co_freevars) != len(f_new.__code__.co_freevars):
+                continue
+            self.saved.append((f_old, f_old.__code__, f_old.__defaults__, f_old.__kwdefaults__))
+            f_old.__code__ = f_new.__code__
+            f_old.__defaults__ = f_new.__defaults__
+            f_old.__kwdefaults__ = f_new.__kwdefaults__
+            changed += 1
+        if changed == 0:
+            self.__exit__(None, None, None)
+            raise ValueError('mutant %r changed no plain Python function (numba-compiled or module-level code?)' % self.label)
         return self
 
     def __exit__(self, *exc):
-        code = compile(self.source, self.module.__file__, 'exec')
-        exec(code, self.module.__dict__)
+        for f, code, defaults, kwdefaults in self.saved:
+            f.__code__ = code
+            f.__defaults__ = defaults
+            f.__kwdefaults__ = kwdefaults
+        self.saved = []
         return False
